@@ -84,3 +84,9 @@ Lemma ex_sp_rows : forall i, (i < sp_rows ex_sp)%nat ->
 Proof.
   intros [|[|i]] Hi; cbn in Hi; try lia; cbn; pose proof ux_small; lra.
 Qed.
+
+Lemma ex_determinant : exists d, determinant ex_m2 = Ok d.
+Proof.
+  eexists. unfold determinant, determinant_gen. change (lu_gen true ex_m2) with (lu_decomp ex_m2).
+  rewrite ex_lu_decomp. reflexivity.
+Qed.
